@@ -539,3 +539,119 @@ Proof.
   - exists f. split; [reflexivity |]. split; lia.
   - exists (f + 1). split; [reflexivity |]. split; lia.
 Qed.
+
+(* ---------------------------------------------------------------- field and order laws, through the value map *)
+Lemma coeff_unique r1 r2 : wfc r1 -> wfc r2 -> (is_int r1 <-> is_int r2) -> cq r1 == cq r2 -> r1 = r2.
+Proof.
+  intros W1 W2 K V. destruct r1 as [a|a b], r2 as [c|c d]; cbn in K; try tauto.
+  - rewrite !cq_int in V. apply inject_Z_injective in V. Show. congruence.
+  - pose proof (canon_qval_unique (Rat a b) (Rat c d) W1 W2 V) as E. congruence.
+Qed.
+
+Definition andthen (o : outcome opt) (f : opt -> outcome opt) : outcome opt := r <- o ;; f r.
+
+Lemma add_comm_coeff x y : wfc x -> wfc y ->
+  add (Some (NC x)) (Some (NC y)) = add (Some (NC y)) (Some (NC x)).
+Proof.
+  intros Hx Hy. destruct (add_coeff x y Hx Hy) as (r1 & E1 & W1 & V1 & K1).
+  destruct (add_coeff y x Hy Hx) as (r2 & E2 & W2 & V2 & K2). rewrite E1, E2. do 3 f_equal.
+  apply coeff_unique; [assumption | assumption | tauto | rewrite V1, V2; ring].
+Qed.
+
+Lemma mul_comm_coeff x y : wfc x -> wfc y ->
+  mul (Some (NC x)) (Some (NC y)) = mul (Some (NC y)) (Some (NC x)).
+Proof.
+  intros Hx Hy. destruct (mul_coeff x y Hx Hy) as (r1 & E1 & W1 & V1 & K1).
+  destruct (mul_coeff y x Hy Hx) as (r2 & E2 & W2 & V2 & K2). rewrite E1, E2. do 3 f_equal.
+  apply coeff_unique; [assumption | assumption | tauto | rewrite V1, V2; ring].
+Qed.
+
+Lemma add_assoc_coeff x y z : wfc x -> wfc y -> wfc z ->
+  andthen (add (Some (NC x)) (Some (NC y))) (fun xy => add xy (Some (NC z))) =
+  andthen (add (Some (NC y)) (Some (NC z))) (fun yz => add (Some (NC x)) yz).
+Proof.
+  intros Hx Hy Hz. unfold andthen.
+  destruct (add_coeff x y Hx Hy) as (xy & E1 & W1 & V1 & K1). rewrite E1. cbn [obind].
+  destruct (add_coeff xy z W1 Hz) as (r1 & E2 & W2 & V2 & K2). rewrite E2.
+  destruct (add_coeff y z Hy Hz) as (yz & E3 & W3 & V3 & K3). rewrite E3. cbn [obind].
+  destruct (add_coeff x yz Hx W3) as (r2 & E4 & W4 & V4 & K4). rewrite E4. do 3 f_equal.
+  apply coeff_unique; [assumption | assumption | tauto | rewrite V2, V1, V4, V3; ring].
+Qed.
+
+Lemma mul_assoc_coeff x y z : wfc x -> wfc y -> wfc z ->
+  andthen (mul (Some (NC x)) (Some (NC y))) (fun xy => mul xy (Some (NC z))) =
+  andthen (mul (Some (NC y)) (Some (NC z))) (fun yz => mul (Some (NC x)) yz).
+Proof.
+  intros Hx Hy Hz. unfold andthen.
+  destruct (mul_coeff x y Hx Hy) as (xy & E1 & W1 & V1 & K1). rewrite E1. cbn [obind].
+  destruct (mul_coeff xy z W1 Hz) as (r1 & E2 & W2 & V2 & K2). rewrite E2.
+  destruct (mul_coeff y z Hy Hz) as (yz & E3 & W3 & V3 & K3). rewrite E3. cbn [obind].
+  destruct (mul_coeff x yz Hx W3) as (r2 & E4 & W4 & V4 & K4). rewrite E4. do 3 f_equal.
+  apply coeff_unique; [assumption | assumption | tauto | rewrite V2, V1, V4, V3; ring].
+Qed.
+
+Lemma distrib_coeff x y z : wfc x -> wfc y -> wfc z ->
+  andthen (add (Some (NC y)) (Some (NC z))) (fun s => mul (Some (NC x)) s) =
+  andthen (mul (Some (NC x)) (Some (NC y))) (fun p => andthen (mul (Some (NC x)) (Some (NC z))) (fun q => add p q)).
+Proof.
+  intros Hx Hy Hz. unfold andthen.
+  destruct (add_coeff y z Hy Hz) as (s & E1 & W1 & V1 & K1). rewrite E1. cbn [obind].
+  destruct (mul_coeff x s Hx W1) as (r1 & E2 & W2 & V2 & K2). rewrite E2.
+  destruct (mul_coeff x y Hx Hy) as (p & E3 & W3 & V3 & K3). rewrite E3. cbn [obind].
+  destruct (mul_coeff x z Hx Hz) as (q & E4 & W4 & V4 & K4). rewrite E4. cbn [obind].
+  destruct (add_coeff p q W3 W4) as (r2 & E5 & W5 & V5 & K5). rewrite E5. do 3 f_equal.
+  apply coeff_unique; [assumption | assumption | tauto | rewrite V2, V1, V5, V3, V4; ring].
+Qed.
+
+Lemma sub_add_inverse_coeff x y : wfc x -> wfc y ->
+  exists d r, sub (Some (NC x)) (Some (NC y)) = Val (Some (NC d)) /\
+              add (Some (NC d)) (Some (NC y)) = Val (Some (NC r)) /\ cq r == cq x.
+Proof.
+  intros Hx Hy. destruct (sub_coeff x y Hx Hy) as (d & E1 & W1 & V1 & _).
+  destruct (add_coeff d y W1 Hy) as (r & E2 & W2 & V2 & _).
+  exists d, r. split; [exact E1 | split; [exact E2 |]]. rewrite V2, V1. ring.
+Qed.
+
+Lemma div_self_coeff x : wfc x -> ~ cq x == 0 ->
+  div (Some (NC x)) (Some (NC x)) = Val (Some (NRat 1 1)).
+Proof.
+  intros Hx Hnz. destruct (div_coeff x x Hx Hx) as [_ H]. destruct (H Hnz) as (n & d & E & C & V).
+  rewrite E. assert (R : Rat n d = Rat 1 1).
+  { apply canon_qval_unique; [exact C | split; [lia | reflexivity] |]. rewrite V. unfold qval. cbn. field. exact Hnz. }
+  injection R as -> ->. reflexivity.
+Qed.
+
+Lemma div_mul_inverse_coeff x y : wfc x -> wfc y -> ~ cq y == 0 ->
+  exists q r, div (Some (NC x)) (Some (NC y)) = Val (Some (NC q)) /\
+              mul (Some (NC q)) (Some (NC y)) = Val (Some (NC r)) /\ cq r == cq x.
+Proof.
+  intros Hx Hy Hnz. destruct (div_coeff x y Hx Hy) as [_ H]. destruct (H Hnz) as (n & d & E & C & V).
+  destruct (mul_coeff (CRat n d) y C Hy) as (r & E2 & W2 & V2 & _).
+  exists (CRat n d), r. split; [exact E | split; [exact E2 |]]. rewrite V2. unfold cq at 1. cbn [to_rational].
+  rewrite V. field. exact Hnz.
+Qed.
+
+(* the order: total, antisymmetric, transitive *)
+Lemma compare_total_antisym_coeff x y : wfc x -> wfc y ->
+  exists c, (c = -1 \/ c = 0 \/ c = 1) /\
+            compare (Some (NC x)) (Some (NC y)) = Val (Some c) /\
+            compare (Some (NC y)) (Some (NC x)) = Val (Some (- c)) /\
+            (c = 0 <-> cq x == cq y) /\ (c = -1 <-> (cq x < cq y)%Q) /\ (c = 1 <-> (cq y < cq x)%Q).
+Proof.
+  intros Hx Hy. rewrite !compare_coeff by assumption. rewrite <- (Qcompare_antisym (cq x) (cq y)).
+  rewrite Qeq_alt, Qlt_alt, (Qlt_alt (cq y)). rewrite <- (Qcompare_antisym (cq x) (cq y)).
+  destruct (cq x ?= cq y)%Q; cbn [zcmp CompOpp]; eexists; (split; [| split; [reflexivity | split; [reflexivity |]]]);
+    try tauto; repeat split; intros; try lia; try discriminate.
+Qed.
+
+Lemma le_trans_coeff x y z : wfc x -> wfc y -> wfc z ->
+  lep (Some (NC x)) (Some (NC y)) = Val true -> lep (Some (NC y)) (Some (NC z)) = Val true ->
+  lep (Some (NC x)) (Some (NC z)) = Val true.
+Proof.
+  intros Hx Hy Hz H1 H2.
+  destruct (preds_coeff x y Hx Hy) as (_ & _ & (b1 & E1 & I1) & _).
+  destruct (preds_coeff y z Hy Hz) as (_ & _ & (b2 & E2 & I2) & _).
+  destruct (preds_coeff x z Hx Hz) as (_ & _ & (b3 & E3 & I3) & _).
+  rewrite E1 in H1. rewrite E2 in H2. rewrite E3. f_equal. apply I3.
+  apply Qle_trans with (cq y); [apply I1 | apply I2]; congruence.
+Qed.
